@@ -41,6 +41,47 @@ DESC = {
     "C19-B": ("initialize with a live session id overwrites that record", "second initialize carrying a live session id"),
     "C20-A": ("command resolved with shutil.which on the host PATH", "bare command name, configured env with its own PATH, same-named program on the host PATH"),
     "C20-B": ("runner de-duplicates servers by (command, args)", "two servers sharing command+args, differing only in env"),
+    # ---- wave 2 (labels C, D) -------------------------------------------------------------------
+    "C01-C": ("progress token merge replaces the caller's whole `_meta` object", "progress callback + caller params that already carry `_meta` with other keys"),
+    "C01-D": ("0.5 s poll scope shielded", "response after the deadline but inside the running poll, or traffic < 0.5 s apart across the deadline"),
+    "C02-C": ("unified parser model gets `str_strip_whitespace`", "string id / method / top-level key starting or ending with whitespace or a line separator"),
+    "C02-D": ("batch item error takes `code` from the exception object", "handler raising an exception with a non-integer `code` attribute inside a batch"),
+    "C03-C": ("tracking entry point prefers the version the client already tracks", "re-initialising a tracked client that carries a version from an earlier handshake, no preferred version"),
+    "C03-D": ("fast path accepts `server_version in (proposed, preferred)`", "preferred version outside the list and the server answering exactly it"),
+    "C04-C": ("is_supported via frozenset + dropped isinstance guard", "protocolVersion that is a JSON array or object (unhashable)"),
+    "C04-D": ("initialize result dict built once and shared between responses", "two initializes with different versions, the second handled before the first response is serialised"),
+    "C05-C": ("whitespace-only reads skipped", "a read that holds only a line terminator or only an in-string whitespace character"),
+    "C05-D": ("notification delivery to the read stream with send_nowait", "more than 100 unread messages ahead of a notification"),
+    "C06-C": ("per-message try narrowed to serialisation (send outside)", "pre-serialised string with a lone surrogate (fails at encode time)"),
+    "C06-D": ("fallback exclude_none applied inside nested dicts", "fallback backend + typed message with a null nested in params/result"),
+    "C07-C": ("error.data forwarded through `dict(data)`", "error response whose data is truthy and not an object (array, string, number, true)"),
+    "C07-D": ("initialize maps any error mentioning 'protocol version' to VersionMismatchError", "non -32602 error to initialize whose text mentions protocol version (incl. the default text of -32008)"),
+    "C08-C": ("try narrowed to the handler call, tuple unpack outside", "custom handler returning something that is not a 2-tuple"),
+    "C08-D": ("`if not msg_id` in the initialized handler", "notifications/initialized sent as a request with id 0 or \"\""),
+    "C09-C": ("parse_message catches only (ValueError, TypeError) around the unified model", "fallback backend + response whose result is not an object"),
+    "C09-D": ("fallback dump drops every key starting with `_`", "fallback backend + undeclared extra member such as `_meta` on a model without that alias"),
+    "C10-C": ("fallback dump drops every key starting with `_`", "fallback backend + unknown member starting with an underscore"),
+    "C10-D": ("content blocks gain a `meta` field aliased `_meta`", "content block carrying `_meta` passed through content_to_dict / sampling builders (no by_alias)"),
+    "C11-C": ("`.strip()` dropped before testing/parsing SSE data", "SSE data with extra leading whitespace after the one stripped space (two spaces, tab, empty first data line)"),
+    "C11-D": ("`httpx.Timeout(timeout, read=None)`", "server that accepts the POST and then stays silent"),
+    "C12-C": ("pending entry popped only in the 202 branch", "failed POST for id X, later a server message re-using id X on the event stream"),
+    "C12-D": ("`if self._message_url is None` instead of falsy", "endpoint event with blank data"),
+    "C13-C": ("batch rejection error queued with send_nowait on the outgoing stream", "outgoing queue full (stalled writer, >= 100 queued) when a batch arrives"),
+    "C13-D": ("StdioTransport re-applies the last negotiated version on re-entry", "second connection through the same transport object, batch before the new handshake"),
+    "C14-C": ("matching progress slides the deadline", "matching-token progress arriving more often than the timeout"),
+    "C14-D": ("callback disabled after it raised once", "callback raising at notification k with more matching notifications afterwards"),
+    "C15-C": ("strip() applied to the carried-over tail fragment", "chunk boundary next to whitespace inside a JSON string (stdio only)"),
+    "C15-D": ("legacy SSE `if message_id:`", "request with integer id 0 answered through the 202 + event pattern"),
+    "C16-C": ("extra checkpoint after open_process in __aenter__", "cancellation pending the instant the spawn completes"),
+    "C16-D": ("reader terminates the child on stdout EOF with a non-reset in-progress flag", "child closing stdout without exiting and ignoring SIGTERM, context left within 1 s"),
+    "C17-C": ("orjson output re-escaped to ASCII with `cp > 0x10000`", "string containing exactly U+10000"),
+    "C17-D": ("incremental decoder reset at every newline", "one read holding the end of a frame and the head of the next, ending mid-character"),
+    "C18-C": ("poll rewritten with move_on_after + cancel_called", "response handed over in the same loop pass as the poll timer, delivered first"),
+    "C18-D": ("id-bearing messages delivered with send_nowait", "read stream buffer full (100 unread) when the response is routed"),
+    "C19-C": ("`if max_age <= 0: return 0` in cleanup", "cleanup with max_age 0 (or negative)"),
+    "C19-D": ("activity update moved after the unknown-method early return", "request with a live session id whose method has no handler, then expiry between the two idle times"),
+    "C20-C": ("server_params not reset per loop iteration in the runner", "server name list with an unknown name after a valid one"),
+    "C20-D": ("loader drops env vars with falsy values", "configured env with an empty-string value"),
 }
 
 
